@@ -9,7 +9,7 @@ Ltac unfold_v0 :=
   unfold accept, simple_transfer, send, combine_and, combine_or, get_parameter_size, get_parameter_section,
     get_policy_section, log_event, load_state, write_state, resize_state, state_size, get_init_origin,
     get_receive_invoker, get_receive_self_address, get_receive_self_balance, get_receive_sender,
-    get_receive_owner, get_slot_time, put_address, read_section, push_action, out_send, out_combine,
+    get_receive_owner, get_slot_time, put_address, read_section, out_send, out_combine, push_action,
     logs_push, st_write_state, st_load_state, st_resize_state.
 Ltac unfold_v1 :=
   unfold invoke, parse_call_args, upgrade, write_return_value, get_parameter_size1, get_parameter_section1,
@@ -73,6 +73,16 @@ Proof.
 Qed.
 
 (** ** call depth *)
+Lemma track_call_eq : forall s : S0,
+  track_call s = if h_frames (hs s) =? 0 then (s, Trap)
+                 else (mkSt (energy s) (mem s) (evs s) (with_frames (hs s) (h_frames (hs s) - 1)), Ok tt).
+Proof. intros. unfold track_call, bind, get_hs, trap, set_hs. destruct (h_frames (hs s) =? 0); reflexivity. Qed.
+Lemma track_return_eq : forall s : S0,
+  track_return s = (mkSt (energy s) (mem s) (evs s) (with_frames (hs s) (h_frames (hs s) + 1)), Ok tt).
+Proof. intros. reflexivity. Qed.
+Lemma frames_with_frames : forall (h : host X) f, h_frames (with_frames h f) = f.
+Proof. intros. destruct h. reflexivity. Qed.
+
 Lemma nested_calls_spec : forall n (s : S0),
   (N.of_nat n <= h_frames (hs s) ->
      exists s', nested_calls n s = (s', Ok tt) /\ h_frames (hs s') = h_frames (hs s))
@@ -80,18 +90,17 @@ Lemma nested_calls_spec : forall n (s : S0),
 Proof.
   induction n as [|n IH]; intros s.
   - split; [intros _; exists s; split; reflexivity | lia].
-  - cbn [nested_calls]. unfold track_call at 1. unfold bind at 1 2, get_hs at 1.
+  - cbn [nested_calls]. unfold bind. rewrite track_call_eq.
     destruct (N.eqb_spec (h_frames (hs s)) 0) as [E|E].
-    + split; [lia|]. intros _. unfold trap. eexists. reflexivity.
-    + unfold set_hs at 1. cbn beta iota.
-      set (s1 := {| energy := energy s; mem := mem s; evs := evs s; hs := with_frames (hs s) (h_frames (hs s) - 1) |}).
-      assert (Hf : h_frames (hs s1) = h_frames (hs s) - 1) by (destruct s as [? ? ? []]; reflexivity).
+    + split; [lia|]. intros _. eexists. reflexivity.
+    + set (s1 := {| energy := energy s; mem := mem s; evs := evs s; hs := with_frames (hs s) (h_frames (hs s) - 1) |}).
+      assert (Hf : h_frames (hs s1) = h_frames (hs s) - 1) by (unfold s1; cbn [hs]; apply frames_with_frames).
       destruct (IH s1) as [IH1 IH2]. split.
       * intros Hle. destruct IH1 as [s2 [E2 F2]]; [rewrite Hf; lia|].
-        unfold bind. rewrite E2. unfold track_return, bind, get_hs, set_hs. cbn beta iota.
-        eexists. split; [reflexivity|]. cbn [hs]. destruct s2 as [? ? ? []]. cbn in *. lia.
+        rewrite E2, track_return_eq. eexists. split; [reflexivity|].
+        cbn [hs]. rewrite frames_with_frames. lia.
       * intros Hlt. destruct IH2 as [s2 E2]; [rewrite Hf; lia|].
-        unfold bind. rewrite E2. eexists. reflexivity.
+        rewrite E2. eexists. reflexivity.
 Qed.
 
 End V0.
@@ -109,4 +118,37 @@ Lemma entry_ok_map : forall es key, Forall entry_ok es ->
 Proof.
   intros es key H. induction H; cbn [map]; constructor; auto.
   destruct (is_prefix key (e_key x)); [exact I | assumption].
+Qed.
+
+Ltac proj_red1 :=
+  cbv beta iota zeta delta [fst snd hs HostV0.h_state HostV0.h_logs HostV0.h_limit HostV0.h_ext HostV0.h_frames
+                            with_state with_logs with_actions with_frames with_balance with_ext
+                            HostV1.x_rv HostV1.x_is HostV1.is_entries HostV1.x_entrypoint
+                            with_is with_rv with_params with_hash with_flags is_set_changed is_with_entries
+                            is_push_handle] in *.
+
+Ltac entries_close :=
+  repeat first [ assumption | apply entry_ok_del | apply entry_ok_app | apply entry_ok_map
+               | (apply entry_ok_set; [| live_facts; arith_close]) ].
+
+Theorem call_v1_v1_ok : forall f args (s : st H1), v1_ok s -> v1_ok (fst (call_v1 f args s)).
+Proof.
+  intros f args s (Hrv & Hent & Hep). dst s. unfold v1_ok in *.
+  cbn [hs HostV0.h_limit HostV0.h_ext HostV1.x_rv HostV1.x_is HostV1.is_entries HostV1.x_entrypoint] in Hrv, Hent, Hep.
+  unfold call_v1. destruct f; split_args args; cbn [call_v1_raw]; unfold_v1; unfold_v0;
+    mstep1; proj_red1;
+    (split; [| split];
+      [ try assumption; intros Hl; try specialize (Hrv Hl); try assumption;
+        repeat (match goal with H : context [if ?c then _ else _] |- _ => destruct c eqn:? end); try discriminate; try arith_close
+      | entries_close
+      | assumption ]).
+Qed.
+
+Theorem call_v1_logs_ok : forall f args (s : st H1), logs_ok s -> logs_ok (fst (call_v1 f args s)).
+Proof.
+  intros f args s [H1 H2]. dst s. unfold logs_ok in *. cbn [hs HostV0.h_logs HostV0.h_limit] in H1, H2.
+  unfold call_v1. destruct f; split_args args; cbn [call_v1_raw]; unfold_v1; unfold_v0;
+    mstep1; proj_red1;
+    (split; [try assumption; intros Hl; try specialize (H1 Hl); try subst; try discriminate; try arith_close
+            | try assumption; try (apply logs_ok_push; [assumption | arith_close])]).
 Qed.
